@@ -19,6 +19,22 @@ class NotConst(Exception):
     pass
 
 
+class ClassRef:
+    """a class as a value of the evaluator / constant folder: repo class by qualified name, or a builtin"""
+
+    def __init__(self, q):
+        self.q = q
+
+    def __repr__(self):
+        return "<class %s>" % self.q
+
+    def __eq__(self, other):
+        return isinstance(other, ClassRef) and other.q == self.q
+
+    def __hash__(self):
+        return hash(("classref", self.q))
+
+
 class Regex:
     """Folded `re.compile(pattern, flags)` constant."""
 
@@ -638,9 +654,13 @@ class Repo:
         if isinstance(e, (ast.Name, ast.Attribute)):
             q = self.resolve(module, None, e)
             if q:
+                if symbolic and (self.canonical(q) in self._classes or (isinstance(e, ast.Name) and _builtin_exc(q) is not None and q not in module.consts)):
+                    return ClassRef(self.canonical(q))
                 try:
                     m2, e2 = self.const_expr(q)
                 except AnalysisError:
+                    if symbolic and q in ("ssl.SSLError", "socket.error", "socket.timeout"):
+                        return ClassRef(q)
                     if symbolic and isinstance(e, ast.Attribute) and isinstance(e.value, ast.Name) and e.value.id in module.imports \
                             and not q.startswith(PKG + ".") and e.attr.isupper():
                         return "@" + q
